@@ -18,7 +18,7 @@ from .pw import PW
 from .angle import SymAngle
 
 _NUMERIC = (int, float, Fraction, _np.integer, _np.floating)
-_KEEP = (Sym, SymBool, LazyAbs, PW, SymAngle)
+_KEEP = (Sym, SymBool, LazyAbs, PW, SymAngle, core.NaNVal)
 
 
 def conv(x):
@@ -44,6 +44,10 @@ def conv(x):
 
 def _conv_arr(a):
     out = _np.empty(a.shape, dtype=object)
+    if a.dtype == bool:
+        for i in _np.ndindex(*a.shape):
+            out[i] = bool(a[i])
+        return out
     for i in _np.ndindex(*a.shape):
         out[i] = conv(a[i])
     return out
@@ -646,7 +650,7 @@ class _Linalg:
 
     def norm(self, x, ord=None, axis=None, keepdims=False):
         x = sarr(x, copy=False)
-        s = (x * x).sum(axis=axis)
+        s = _wrap(_np.sum((x * x).view(_np.ndarray), axis=axis, keepdims=keepdims))
 
         def lazy(v):
             v = Sym._co(core.force(v))
@@ -944,19 +948,19 @@ class SymNP(types.ModuleType):
     def einsum(self, spec, *ops, **kw):
         return _einsum(spec, *[sarr(o, copy=False).view(_np.ndarray) for o in ops])
 
-    def sum(self, a, axis=None, **kw):
+    def sum(self, a, axis=None, keepdims=False, **kw):
         if not is_sym(a) and not _has_sym(a):
             if isinstance(a, _np.ndarray) and a.dtype != object and not _np.issubdtype(a.dtype, _np.floating):
-                return _np.sum(a, axis=axis)
+                return _np.sum(a, axis=axis, keepdims=keepdims)
         a = sarr(a, copy=False).view(_np.ndarray)
         if a.size == 0:
-            return core.CTX.const(0) if axis is None else _filled(_np.sum(_np.zeros(a.shape), axis=axis).shape, core.CTX.const(0))
-        return _wrap(_np.sum(a, axis=axis))
+            return core.CTX.const(0) if axis is None else _filled(_np.sum(_np.zeros(a.shape), axis=axis, keepdims=keepdims).shape, core.CTX.const(0))
+        return _wrap(_np.sum(a, axis=axis, keepdims=keepdims))
 
-    def mean(self, a, axis=None, **kw):
+    def mean(self, a, axis=None, keepdims=False, **kw):
         a = sarr(a, copy=False).view(_np.ndarray)
         n = a.size if axis is None else a.shape[axis]
-        return _wrap(_np.sum(a, axis=axis)) / n
+        return _wrap(_np.sum(a, axis=axis, keepdims=keepdims)) / n
 
     def prod(self, a, axis=None):
         return _wrap(_np.prod(sarr(a, copy=False).view(_np.ndarray), axis=axis))
